@@ -146,6 +146,10 @@ class PlotHook:
         p0 = real.project(obj)
         plt = self.plt
         dm, df = inst.dist_a, inst.dist_f
+        # (the alias "log-normal" is passed for the mean-curve distribution only: for distribution_fn the figures and the table look up
+        #  their labels by the literal name and raise KeyError / UnboundLocalError for the alias - an observation, not judged: no property
+        #  says which spellings the plotting functions accept)
+        df = "lognormal" if df == "log-normal" else df
         inner = real.inner(obj)
         # ---- single panel, everything switched on ---------------------------------------------
         out, err = self.guarded("plot_single_panel_hvsr_curves",
